@@ -104,7 +104,10 @@ def body(chk, db, cfgname):
         g = lh.check_sum_over_parts(r1, db, cfgname, qn, 1, ptypes, "of_tau")
         gctx = Ctx(g, db)
         gat = guard_facts(g, gctx)
-        subs = [j for j, n in g.walk(g.body) if (n["k"] == "call" and n["ck"] == "op" and n.get("op") == "-=") or (n["k"] == "bin" and n["op"] == "-=")]
+        # subtractions from the value that is returned (a `-=` on anything else, e.g. on the argument, is not the disconnected part)
+        retvars = {gctx.key(m["sub"], inline=False)[:2] for _, m in g.walk(g.body) if m["k"] == "return" and m.get("sub") is not None and gctx.key(m["sub"], inline=False)[0] == "var"}
+        subs = [j for j, n in g.walk(g.body) if ((n["k"] == "call" and n["ck"] == "op" and n.get("op") == "-=") or (n["k"] == "bin" and n["op"] == "-="))
+                and (not retvars or gctx.key(n["args"][0] if n["k"] == "call" else n["l"], inline=False)[:2] in retvars)]
         site = "%s:disconnected" % qn
         if len(subs) != 1:
             r1.bad(site, g.loc(), "the disconnected part is subtracted %d times" % len(subs), cfgname)
